@@ -37,11 +37,82 @@ def opPath (toks : List String) : String :=
     | _, _, _ => "bad-args"
   | _ => "bad-args"
 
+def failStr : Failure → String
+  | .shapeLoad => "ShapeLoadError"
+  | .constraintLoad => "ConstraintLoadError"
+  | .ruleLoad => "RuleLoadError"
+  | .runtime "" => "ReportableRuntimeError"
+  | .runtime w => "ReportableRuntimeError:" ++ w
+  | .validationFailure => "ValidationFailure"
+  | .notImplemented => "NotImplementedError"
+  | .raw c => "raw:" ++ c
+
+partial def resultStr : Result → String
+  | .mk f v p c s sev msgs det =>
+    let opt := fun (t : Option Term) => match t with | some x => termStr x | none => "-"
+    "R " ++ termStr f ++ " " ++ opt v ++ " " ++ opt p ++ " " ++ termStr c ++ " " ++ termStr s ++ " " ++
+      termStr sev ++ " " ++ toString msgs.length ++ (String.join (msgs.map fun m => " " ++ termStr m)) ++ " " ++
+      toString det.length ++ (String.join (det.map fun d => " " ++ resultStr d))
+
+/-- `k=v` options -/
+def parseOpts (toks : List String) : Opts × List String :=
+  let rec go (o : Opts) : List String → Opts × List String
+    | [] => (o, [])
+    | t :: rest =>
+      match t.splitOn "=" with
+      | ["advanced", v] => go { o with advanced := v = "1" } rest
+      | ["abort", v] => go { o with abortOnFirst := v = "1" } rest
+      | ["infos", v] => go { o with allowInfos := v = "1" } rest
+      | ["warnings", v] => go { o with allowWarnings := v = "1" } rest
+      | ["sparql", v] => go { o with sparqlMode := v = "1" } rest
+      | ["maxdepth", v] => go { o with maxDepth := v.toNat?.getD Caps.maxValidationDepth } rest
+      | _ => (o, t :: rest)
+  go {} toks
+
+/-- `RX n (pattern flags string 0|1)*` -/
+def parseRx : Nat → List String → List (String × String × String × Bool) → Option (List (String × String × String × Bool) × List String)
+  | 0, rest, acc => some (acc, rest)
+  | n+1, p :: f :: s :: b :: rest, acc =>
+    parseRx n rest ((unescape p, (if f = "-" then "" else unescape f), unescape s, b = "1") :: acc)
+  | _, _, _ => none
+
+def rxOfTable (tbl : List (String × String × String × Bool)) : Regex := fun p f s =>
+  (tbl.find? fun r => r.1 = p ∧ r.2.1 = f ∧ r.2.2.1 = s).map (·.2.2.2)
+
+/-- `validate <opts…> FOCUS <terms> SHAPES <terms> SG <graph> DG <graph> RX <n> …` -/
+def opValidate (toks : List String) : String :=
+  let (o, rest) := parseOpts toks
+  match rest with
+  | "FOCUS" :: rest =>
+    match parseTermList rest with
+    | some (focus, "SHAPES" :: rest) =>
+      match parseTermList rest with
+      | some (useShapes, "SG" :: rest) =>
+        match parseGraph rest with
+        | some (sg, "DG" :: rest) =>
+          match parseGraph rest with
+          | some (dg, "RX" :: n :: rest) =>
+            match parseRx (n.toNat?.getD 0) rest [] with
+            | some (tbl, _) =>
+              let sg' := sg ++ systemTriples.filter (· ∉ sg)
+              let out := runValidate o sg' dg (rxOfTable tbl) focus useShapes
+              match out with
+              | .error e => "err " ++ failStr e
+              | .ok (conf, rs) => "ok " ++ (if conf then "1" else "0") ++ " " ++ toString rs.length ++
+                  String.join (rs.map fun r => " " ++ resultStr r)
+            | none => "bad-rx"
+          | _ => "bad-dg"
+        | _ => "bad-sg"
+      | _ => "bad-shapes"
+    | _ => "bad-focus"
+  | _ => "bad-args"
+
 def step (line : String) : String :=
   match (line.trimAscii.toString.splitOn " ").filter (· ≠ "") with
   | id :: op :: rest =>
     let out := match op with
       | "path" => opPath rest
+      | "validate" => opValidate rest
       | _ => "bad-op"
     id ++ " " ++ out
   | _ => "? bad-line"
